@@ -83,6 +83,13 @@ def toDyn (callerFeats : List String) (c : RefCase) (h : Nat) : Option (Except P
     if toDynHasArm callerFeats c.variant then some (.ok { c with handles := c.handles ++ [some true] })
     else some (.error .unimpl)
   | none => none
+/-- the same when rrtk itself is built with features `rrtkFeats` (which definition of the macro exists is decided there) -/
+def toDynIn (callerFeats rrtkFeats : List String) (c : RefCase) (h : Nat) : Option (Except Panic RefCase) :=
+  match c.handles.getD h none with
+  | some _ =>
+    if toDynHasArmIn callerFeats rrtkFeats c.variant then some (.ok { c with handles := c.handles ++ [some true] })
+    else some (.error .unimpl)
+  | none => none
 def read (c : RefCase) (h : Nat) : Option Int := if c.handleLive h then some c.value else none
 def write (c : RefCase) (h : Nat) (v : Int) : Option RefCase :=
   if c.handleLive h then some { c with value := v } else none
